@@ -34,6 +34,7 @@ type inlineState struct {
 	p        *Prog
 	isNew    map[*types.Func]*FuncInfo
 	tailOnly map[*types.Func]bool // helpers with defer / recover: inlined only where their return is the caller's return
+	quasiTail bool                // the statement being processed is followed only by a return of plain names
 	n        int
 	notes    []string
 }
@@ -225,9 +226,22 @@ func (st *inlineState) tailBody(pk *packagesPkg, call *ast.CallExpr, h *FuncInfo
 
 func (st *inlineState) stmts(pk *packagesPkg, list []ast.Stmt, stack []*types.Func) []ast.Stmt {
 	var out []ast.Stmt
-	for _, s := range list {
+	for i, s := range list {
+		// a helper with defer whose call is followed only by `return <names>`: its deferred calls run where the
+		// caller's return runs
+		st.quasiTail = false
+		if i+2 == len(list) {
+			if ret, isRet := list[i+1].(*ast.ReturnStmt); isRet {
+				pure := true
+				for _, e := range ret.Results {
+					pure = pure && pureExpr(e)
+				}
+				st.quasiTail = pure
+			}
+		}
 		out = append(out, st.stmt(pk, s, stack, 0)...)
 	}
+	st.quasiTail = false
 	return out
 }
 
@@ -480,7 +494,7 @@ func (st *inlineState) clauses(pk *packagesPkg, body *ast.BlockStmt, stack []*ty
 
 // eligible: the helper a call resolves to, if it may be inlined here.
 func (st *inlineState) eligible(pk *packagesPkg, call *ast.CallExpr, stack []*types.Func) *FuncInfo {
-	return st.eligibleT(pk, call, stack, false)
+	return st.eligibleT(pk, call, stack, st.quasiTail)
 }
 
 func (st *inlineState) eligibleT(pk *packagesPkg, call *ast.CallExpr, stack []*types.Func, tail bool) *FuncInfo {
@@ -744,7 +758,22 @@ func (st *inlineState) instantiate(pk *packagesPkg, call *ast.CallExpr, h *FuncI
 				if len(x.Results) != len(lhs) && len(x.Results) != 1 {
 					panic("return arity")
 				}
-				repl = append(repl, &ast.AssignStmt{Lhs: lhs, TokPos: x.Pos(), Tok: token.ASSIGN, Rhs: x.Results})
+				// `x, err = x, err` (a result variable unified with the caller's) says nothing
+				var l2, r2 []ast.Expr
+				if len(lhs) == len(x.Results) {
+					for k := range lhs {
+						lo := info.Uses[lhs[k].(*ast.Ident)]
+						if rid, isID := ast.Unparen(x.Results[k]).(*ast.Ident); isID && info.Uses[rid] == lo && lo != nil {
+							continue
+						}
+						l2, r2 = append(l2, lhs[k]), append(r2, x.Results[k])
+					}
+				} else {
+					l2, r2 = lhs, x.Results
+				}
+				if len(l2) > 0 {
+					repl = append(repl, &ast.AssignStmt{Lhs: l2, TokPos: x.Pos(), Tok: token.ASSIGN, Rhs: r2})
+				}
 			}
 			repl = append(repl, jump(x.Pos()))
 			c.Replace(&ast.BlockStmt{Lbrace: x.Pos(), List: repl, Rbrace: x.End()})
